@@ -8,17 +8,12 @@ plus the edge list).  The dumped files are the graphs at the END of the pipeline
 PVG after create_cleavage_graph AND call_variant_peptides).
 
 The stage checks also need the graphs BETWEEN the stages.  They are taken inside THIS worker process only, by
-wrapping four methods (no /repo hook; the same technique as _ForcedTimeouts in callvariant.py) and calling the
-repo's OWN jsonfy at the stage boundary:
-
-   tvg_raw   after ThreeFrameTVG.create_variant_graph   (variant bubbles, before codon alignment)
-   tvg_fit   after ThreeFrameTVG.fit_into_codons        (what translate() consumes)
-   pvg_tr    the return value of ThreeFrameTVG.translate (peptide graph before cleavage)
-   pvg_cl    after PeptideVariantGraph.create_cleavage_graph (before the peptide traversal)
-   tvg_dump / pvg_dump   the files written by --graph-output-dir
-
-Only the graph that went through create_variant_graph (i.e. not the variant-free graph of
-call_canonical_peptides) is recorded; graphs of fusion / circRNA sub-calls are ignored (global_variant set).
+wrapping methods (no /repo hook; the same technique as _ForcedTimeouts in callvariant.py) and calling the repo's OWN
+jsonfy() at the stage boundary (class _Stages below): tvg_raw (the graph handed to fit_into_codons), tvg_fit,
+pvg_tr (return value of translate), pvg_cl (after create_cleavage_graph), plus tvg_dump / pvg_dump = the files
+written by --graph-output-dir.  The graph is identified by the caller it is built in (main / fusion / circRNA); the
+variant-free graph of call_canonical_peptides is ignored.  Cases may carry small records, fusions, alternative-
+splicing records and circRNA records (GVF files written as in callvariant.py / callvariant2.py).
 
 PeptideVariantGraph.jsonfy leaves out every node without out-edges (the shared `stop` sink) and every edge that
 touches such a node: the dump of a PVG therefore ends at the last real nodes of each branch.
@@ -26,6 +21,7 @@ touches such a node: the dump of a PVG therefore ends at the last real nodes of 
 import os, sys, json, shutil, glob
 sys.path.insert(0, os.path.dirname(os.path.abspath(__file__)))
 import callvariant as CV
+import callvariant2 as CV2
 import gen_reference as G
 from moPepGen import cli
 
@@ -33,53 +29,85 @@ def init(wd):
     CV.init(wd)
 
 class _Stages:
-    """record jsonfy() of the main graph of every transcript at the four stage boundaries"""
+    """record jsonfy() of every graph callVariant builds for a transcript at the stage boundaries.  The graph is
+    identified by the caller it is built in (call_peptide_main / call_peptide_fusion / call_peptide_circ_rna are
+    wrapped to set the context; the variant-free graph of call_canonical_peptides has no context and is ignored):
+       key '<tx>'                      main graph            (dump <tx>_main_TVG.json / _PVG.json)
+       key '<tx>|Fusion|<fusion id>'   fusion graph          (dump <tx>_Fusion_<id>_*.json)
+       key '<tx>|circRNA|<circ id>'    circRNA graph         (dump <tx>_circRNA_<id>_*.json)
+    stages: tvg_raw = the graph handed to fit_into_codons (after create_variant_graph; circRNA: after
+    create_variant_circ_graph + extend_loop + truncate_three_frames), tvg_fit = after fit_into_codons,
+    pvg_tr = return value of translate(), pvg_cl = after create_cleavage_graph."""
     def __init__(self):
+        import importlib
         from moPepGen.svgraph.ThreeFrameTVG import ThreeFrameTVG
         from moPepGen.svgraph.PeptideVariantGraph import PeptideVariantGraph
+        importlib.import_module('moPepGen.cli.call_variant_peptide')
+        self.M = sys.modules['moPepGen.cli.call_variant_peptide']
         self.T, self.P = ThreeFrameTVG, PeptideVariantGraph
         self.snap = {}
         self.err = []
+        self.ctx = None
 
-    def _put(self, g, stage, obj):
-        if getattr(g, 'global_variant', None) is not None:
+    def _put(self, stage, obj):
+        if self.ctx is None:
             return
         try:
-            self.snap.setdefault(g.id, {})[stage] = obj.jsonfy()
+            self.snap.setdefault(self.ctx, {})[stage] = obj.jsonfy()
         except BaseException as e:       # noqa  (a snapshot must never change the run)
-            self.err.append('%s:%s:%s' % (g.id, stage, type(e).__name__))
+            self.err.append('%s:%s:%s' % (self.ctx, stage, type(e).__name__))
 
     def __enter__(self):
-        T, P, me = self.T, self.P, self
-        self.o = (T.create_variant_graph, T.fit_into_codons, T.translate, P.create_cleavage_graph)
-        o_cvg, o_fit, o_tr, o_cl = self.o
-        def cvg(self, *a, **k):
-            r = o_cvg(self, *a, **k)
-            self._verif_main = True
-            me._put(self, 'tvg_raw', self)
-            return r
+        T, P, M, me = self.T, self.P, self.M, self
+        self.o = (T.fit_into_codons, T.translate, P.create_cleavage_graph,
+                  M.call_peptide_main, M.call_peptide_fusion, M.call_peptide_circ_rna)
+        o_fit, o_tr, o_cl, o_main, o_fus, o_circ = self.o
         def fit(self, *a, **k):
+            me._put('tvg_raw', self)
             r = o_fit(self, *a, **k)
-            if getattr(self, '_verif_main', False):
-                me._put(self, 'tvg_fit', self)
+            me._put('tvg_fit', self)
             return r
         def tr(self, *a, **k):
             pg = o_tr(self, *a, **k)
-            if getattr(self, '_verif_main', False):
-                pg._verif_main = True
-                me._put(self, 'pvg_tr', pg)
+            me._put('pvg_tr', pg)
             return pg
         def cl(self, *a, **k):
             r = o_cl(self, *a, **k)
-            if getattr(self, '_verif_main', False):
-                me._put(self, 'pvg_cl', self)
+            me._put('pvg_cl', self)
             return r
-        T.create_variant_graph, T.fit_into_codons, T.translate, P.create_cleavage_graph = cvg, fit, tr, cl
+        def in_ctx(key, f, a, k):
+            old, me.ctx = me.ctx, key
+            try:
+                return f(*a, **k)
+            finally:
+                me.ctx = old
+        def main(*a, **k):
+            return in_ctx(str(k.get('tx_id', a[0] if a else '?')), o_main, a, k)
+        def fus(*a, **k):
+            v = k.get('variant', a[0] if a else None)
+            return in_ctx('%s|Fusion|%s' % (v.transcript_id, v.id), o_fus, a, k)
+        def circ(*a, **k):
+            r = k.get('record', a[0] if a else None)
+            return in_ctx('%s|circRNA|%s' % (r.transcript_id, r.id), o_circ, a, k)
+        T.fit_into_codons, T.translate, P.create_cleavage_graph = fit, tr, cl
+        M.call_peptide_main, M.call_peptide_fusion, M.call_peptide_circ_rna = main, fus, circ
         return self
 
     def __exit__(self, *a):
-        T, P = self.T, self.P
-        T.create_variant_graph, T.fit_into_codons, T.translate, P.create_cleavage_graph = self.o
+        T, P, M = self.T, self.P, self.M
+        (T.fit_into_codons, T.translate, P.create_cleavage_graph,
+         M.call_peptide_main, M.call_peptide_fusion, M.call_peptide_circ_rna) = self.o
+
+def _dump_key(name):
+    """<tx>_main_TVG.json | <tx>_Fusion_<id>_TVG.json | <tx>_circRNA_<id>_PVG.json -> (key, 'tvg_dump' | 'pvg_dump')"""
+    base, kind = name[:-len('_TVG.json')], ('tvg_dump' if name.endswith('_TVG.json') else 'pvg_dump')
+    if base.endswith('_main'):
+        return base[:-len('_main')], kind
+    for tag in ('_Fusion_', '_circRNA_'):
+        if tag in base:
+            tx, vid = base.split(tag, 1)
+            return '%s|%s|%s' % (tx, tag.strip('_'), vid), kind
+    return base, kind
 
 def one_run(d, g, a, p, gvfs, r, idx):
     gdir = os.path.join(d, 'graphs%d' % idx)
@@ -90,12 +118,9 @@ def one_run(d, g, a, p, gvfs, r, idx):
     with _Stages() as st:
         out = CV.one_run(d, g, a, p, gvfs, r2, idx)
     graphs = st.snap
-    for f in sorted(glob.glob(os.path.join(gdir, '*_main_TVG.json'))):
-        tx = os.path.basename(f)[:-len('_main_TVG.json')]
-        graphs.setdefault(tx, {})['tvg_dump'] = json.load(open(f))
-    for f in sorted(glob.glob(os.path.join(gdir, '*_main_PVG.json'))):
-        tx = os.path.basename(f)[:-len('_main_PVG.json')]
-        graphs.setdefault(tx, {})['pvg_dump'] = json.load(open(f))
+    for f in sorted(glob.glob(os.path.join(gdir, '*.json'))):
+        key, kind = _dump_key(os.path.basename(f))
+        graphs.setdefault(key, {})[kind] = json.load(open(f))
     out['graphs'] = graphs
     out['dumped_files'] = sorted(os.path.basename(f) for f in glob.glob(os.path.join(gdir, '*')))
     if st.err:
@@ -109,9 +134,21 @@ def handle(case):
     try:
         g, a, p = G.write_world(case['world'], d)
         gvfs = []
-        for i, rows in enumerate(case.get('gvf_files') or [case['gvf']]):
+        for i, rows in enumerate(case.get('gvf_files') or ([case['gvf']] if case.get('gvf') else [])):
             gp = os.path.join(d, 'v%d.gvf' % i)
             CV.write_gvf(gp, rows)
+            gvfs.append(gp)
+        if case.get('fusions'):
+            gp = os.path.join(d, 'fusion.gvf')
+            CV.write_fusion_gvf(gp, case['fusions'])
+            gvfs.append(gp)
+        if case.get('as_records'):
+            gp = os.path.join(d, 'as.gvf')
+            CV2.write_as_gvf(gp, case['as_records'])
+            gvfs.append(gp)
+        if case.get('circ_records'):
+            gp = os.path.join(d, 'circ.gvf')
+            CV2.write_circ_gvf(gp, case['circ_records'])
             gvfs.append(gp)
         return {'runs': [one_run(d, g, a, p, gvfs, r, i) for i, r in enumerate(case['runs'])]}
     finally:
